@@ -272,9 +272,12 @@ type Sink struct {
 	Got   string
 	OK    bool
 	Mixed bool
-	Src   string
-	AV    AV
-	In    ssa.Instruction
+	// Undecided: why a sink that is not proven says nothing either way (a program value the
+	// interval analysis has no lower bound for at all, e.g. a count produced by a loop)
+	Undecided string
+	Src       string
+	AV        AV
+	In        ssa.Instruction
 }
 
 func (s *Sink) Key() string { return fmt.Sprintf("%s#%s%d", core.FnName(s.Fn), s.Kind, s.Ord) }
@@ -3148,6 +3151,15 @@ func (a *fnAn) callSinks(in ssa.Instruction, cc *ssa.CallCommon, name string, st
 			all := av.all()
 			if all != nil && !av.PExt {
 				a.addSink(in, "next(n)", av, nonNeg(all), "argument of "+name[strings.LastIndex(name, ".")+1:]+" >= 0 for every value that can reach it", "n "+av.String())
+				// a pure program value with no lower bound whatever is ignorance (a count that
+				// comes out of a loop is widened to the whole type), not a negative argument
+				if av.T == nil && !nonNeg(all) {
+					if tr := typeRange(v.Type(), a.sizes); all.Lo == nil || (tr != nil && tr.Lo != nil && all.Lo.Cmp(tr.Lo) <= 0) {
+						if m := a.sinks[in]; m != nil && m["next(n)"] != nil {
+							m["next(n)"].Undecided = "a program value (no peer-derived part) for which the interval analysis has no lower bound at all"
+						}
+					}
+				}
 			}
 		}
 	case "reflect.(Value).Index":
